@@ -309,9 +309,24 @@ static uint64_t case_hash_faults(const Scn &s) {
   return h;
 }
 
+// C05 compares what an altered file decrypts to with the original plaintext; that only says something about the
+// alteration if the unaltered file decrypts to the original plaintext in the first place (C01's statement).
+static bool baseline_roundtrips(const Scn &s, const Baseline &B) {
+  SimFile fin, fout;
+  fin.data = B.F;
+  OpSpec d = B.e;
+  d.kind = OP_DEC;
+  d.fin = &fin; d.fout = &fout;
+  d.fsize = B.F.size();
+  d.sc = sc_canonical((long)B.F.size(), B.T);
+  OpResult r = run_slot(s, d, 4, "dec(baseline)", HANG_SKIP);
+  return r.ret && fout.data == B.P;
+}
+
 static Verdict run_C05(const Scn &s) {
   Baseline B = make_baseline(s, needs_second(s));
   if (!B.ok) return skipv(B.why);
+  if (!baseline_roundtrips(s, B)) return skipv("baseline-roundtrip-fails(C01 matter)");
   uint8_t key[16];
   memcpy(key, B.e.key, 16);
   Bytes F2 = apply_faults(s, B, key);
